@@ -65,6 +65,14 @@ def senderDrop (r : Ring α) (pending : List α) : Ring α :=
   let r := pending.foldl (fun r x => (r.push x).getD r) r
   { r with producerAlive := false }
 
+/-- ghost: the parked values that `senderDrop` could not push (they are gone: finding D3) -/
+def senderDropLost (r : Ring α) : List α → List α
+  | [] => []
+  | x :: xs =>
+    match r.push x with
+    | some r' => senderDropLost r' xs
+    | none => x :: senderDropLost r xs
+
 inductive Recv (α : Type) where
   | value (x : α)
   | empty
